@@ -39,6 +39,8 @@ type Origin struct {
 	Inlined bool
 	// MayBefore: union, over the visits of this call, of what may have happened before it (context-free summaries)
 	MayBefore map[Tag]bool
+	// Exits: the exits of the callee's body as analysed in the caller's context at this call (Inlined only)
+	Exits []*Exit
 }
 
 const (
@@ -61,12 +63,23 @@ type State struct {
 	Pend   map[*Origin]types.Object // error result bound, never inspected so far (may)
 	// FuncVal: a func-typed parameter of a callee analysed in context is known to be this function / method value
 	FuncVal map[types.Object]*types.Func
+	// Cond: a bool variable holds the value of this side-effect-free test over variables not assigned since
+	// (`awaited := callback != nil`, or the same test handed to a bool parameter of a callee analysed in context)
+	Cond map[types.Object]ast.Expr
+	// Feas: for a call whose callee was analysed in context, which of the callee's exits are still consistent with
+	// what has been learnt about its results since (a bool result tested, its error found nil / non-nil)
+	Feas map[*Origin]feas
+}
+
+type feas struct {
+	mask uint64
+	n    int
 }
 
 func newState() *State {
 	return &State{Must: map[Tag]bool{}, May: map[Tag]bool{}, Nil: map[types.Object]int8{}, Bool: map[types.Object]int8{},
 		Eq: map[types.Object]*types.Const{}, Def: map[types.Object]*Origin{}, DefIdx: map[types.Object]int{},
-		Unrep: map[*Origin]bool{}, Pend: map[*Origin]types.Object{}, FuncVal: map[types.Object]*types.Func{}}
+		Unrep: map[*Origin]bool{}, Pend: map[*Origin]types.Object{}, FuncVal: map[types.Object]*types.Func{}, Cond: map[types.Object]ast.Expr{}, Feas: map[*Origin]feas{}}
 }
 
 func (s *State) copy() *State {
@@ -100,6 +113,12 @@ func (s *State) copy() *State {
 	}
 	for k, v := range s.FuncVal {
 		n.FuncVal[k] = v
+	}
+	for k, v := range s.Cond {
+		n.Cond[k] = v
+	}
+	for k, v := range s.Feas {
+		n.Feas[k] = v
 	}
 	return n
 }
@@ -147,6 +166,22 @@ func (s *State) join(o *State) bool {
 	for k, v := range s.FuncVal {
 		if o.FuncVal[k] != v {
 			delete(s.FuncVal, k)
+			ch = true
+		}
+	}
+	for k, v := range s.Cond {
+		if o.Cond[k] != v {
+			delete(s.Cond, k)
+			ch = true
+		}
+	}
+	for k, v := range s.Feas {
+		ov, ok := o.Feas[k]
+		if !ok || ov.n != v.n {
+			delete(s.Feas, k)
+			ch = true
+		} else if v.mask|ov.mask != v.mask {
+			s.Feas[k] = feas{v.mask | ov.mask, v.n}
 			ch = true
 		}
 	}
@@ -207,6 +242,7 @@ type Exit struct {
 	Results   []ast.Expr
 	Class     string
 	BoolRes   int8    // value of the function's only bool result at this exit (isTrue/isFalse, 0 unknown)
+	Via       *Origin // non-nil: an exit of a helper the function returns through (`return helper(..)`)
 	ErrOrigin *Origin // the call whose error is returned directly (return f() / return err with err := f())
 	OkImplies map[Tag]bool
 	FailImpl  map[Tag]bool
@@ -330,6 +366,10 @@ type Spec struct {
 	// caller continues with what holds on the callee's exits. This is what keeps the rules indifferent to
 	// extract-method refactorings. 0 means the default (2 frames); negative switches it off.
 	Inline int
+	// Fork: a callee analysed in context whose exits differ on a Split tag is not merged at the call: the rest of
+	// the caller is analysed once per group of exits that agree on the Split tags (the decision a helper took —
+	// which mode, which case — stays known in the caller, e.g. when it is handed back as a struct of flags).
+	Fork bool
 
 	nextInline int
 	paramRoot  map[types.Object]types.Object // parameter of a callee being analysed in context -> the caller's variable it stands for
@@ -533,11 +573,24 @@ type runner struct {
 	res        *Result
 	inLoop     map[*cfg.Block]bool
 	inline     int
+	body       *ast.BlockStmt
+	// forking at calls analysed in context (Spec.Fork)
+	probing   bool
+	forkReq   *forkReq
+	force     map[*ast.CallExpr][]int
+	forkDepth int
+}
+
+type forkReq struct {
+	call   *ast.CallExpr
+	groups [][]int
 }
 
 func (sp *Spec) run(pkg *packages.Package, ft *ast.FuncType, body *ast.BlockStmt, g *cfg.CFG, depth int, init *State) *Result {
 	r := &runner{sp: sp, pkg: pkg, info: pkg.TypesInfo, ftype: ft, depth: depth, caseTag: map[ast.Expr]ast.Expr{}, selectComm: map[ast.Stmt]bool{}, origins: map[*ast.CallExpr]*Origin{}, res: &Result{}, errIdx: -1, boolIdx: -1}
 	r.inline = sp.nextInline
+	r.body = body
+	r.force = map[*ast.CallExpr][]int{}
 	r.fi, sp.nextFn = sp.nextFn, nil
 	sp.nextInline = 0 // nested runs (summaries, literals) are context-free unless the caller arms it again
 	if ft.Results != nil {
@@ -638,22 +691,20 @@ func (sp *Spec) run(pkg *packages.Package, ft *ast.FuncType, body *ast.BlockStmt
 		for _, pk := range sortedKeys(in[b.Index]) {
 			outs := r.block(b, in[b.Index][pk].copy())
 			for i, s := range b.Succs {
-				o := outs[i]
-				if o == nil {
-					continue
-				}
-				k := pkey(o)
-				if in[s.Index] == nil {
-					in[s.Index] = map[string]*State{}
-				}
-				if cur := in[s.Index][k]; cur == nil {
-					in[s.Index][k] = o.copy()
-				} else if !cur.join(o) {
-					continue
-				}
-				if !queued[s] {
-					queued[s] = true
-					work = append(work, s)
+				for _, o := range outs[i] {
+					k := pkey(o)
+					if in[s.Index] == nil {
+						in[s.Index] = map[string]*State{}
+					}
+					if cur := in[s.Index][k]; cur == nil {
+						in[s.Index][k] = o.copy()
+					} else if !cur.join(o) {
+						continue
+					}
+					if !queued[s] {
+						queued[s] = true
+						work = append(work, s)
+					}
 				}
 			}
 		}
@@ -673,8 +724,8 @@ func (sp *Spec) run(pkg *packages.Package, ft *ast.FuncType, body *ast.BlockStmt
 					// the block after the last case of a select without default is never executed
 					continue
 				}
-				if outs[0] != nil {
-					r.exit(nil, body.Rbrace, outs[0])
+				for _, o := range outs[0] {
+					r.exit(nil, body.Rbrace, o)
 				}
 			}
 		}
@@ -741,8 +792,9 @@ func nillable(t types.Type) bool {
 	return false
 }
 
-// block applies the transfer functions of b and returns one out-state per successor.
-func (r *runner) block(b *cfg.Block, st *State) []*State {
+// block applies the transfer functions of b and returns the out-states per successor (one, unless a call analysed
+// in context forked the analysis: Spec.Fork).
+func (r *runner) block(b *cfg.Block, st *State) [][]*State {
 	n := len(b.Nodes)
 	var cond ast.Expr
 	if len(b.Succs) == 2 && n > 0 {
@@ -755,6 +807,12 @@ func (r *runner) block(b *cfg.Block, st *State) []*State {
 		// go/cfg evaluates every communication before the bodies; which arm was taken is known only here:
 		// the classified calls of the chosen communication are recorded as arm:<tag>
 		if cc, ok := b.Stmt.(*ast.CommClause); ok && cc.Comm != nil {
+			// the send of the taken arm has happened
+			if ss, ok := cc.Comm.(*ast.SendStmt); ok && r.sp.StmtTags != nil {
+				for _, t := range r.sp.StmtTags(r.pkg, ss) {
+					r.addTag(st, t)
+				}
+			}
 			ast.Inspect(cc.Comm, func(m ast.Node) bool {
 				if _, isLit := m.(*ast.FuncLit); isLit {
 					return false
@@ -782,7 +840,37 @@ func (r *runner) block(b *cfg.Block, st *State) []*State {
 			})
 		}
 	}
-	for i := 0; i < n; i++ {
+	if b.Kind == cfg.KindSelectCaseBody && r.contradictory(st) {
+		// the rule has stated that this arm cannot be the one taken
+		return make([][]*State, max(len(b.Succs), 1))
+	}
+	outs := make([][]*State, max(len(b.Succs), 1))
+	for _, f := range r.nodesFrom(b, 0, n, st) {
+		for i, o := range r.branch(b, cond, f) {
+			if o != nil {
+				outs[i] = append(outs[i], o)
+			}
+		}
+	}
+	return outs
+}
+
+// nodesFrom applies the nodes i..n-1 of b to st and returns the resulting state(s).
+func (r *runner) nodesFrom(b *cfg.Block, i, n int, st *State) []*State {
+	for ; i < n; i++ {
+		if r.sp.Fork && len(r.sp.Split) > 0 && r.inline > 0 && !r.probing && r.forkDepth < 4 && hasCall(b.Nodes[i]) {
+			if fr := r.probe(b, b.Nodes[i], st); fr != nil {
+				var out []*State
+				for _, g := range fr.groups {
+					r.force[fr.call] = g
+					r.forkDepth++
+					out = append(out, r.nodesFrom(b, i, n, st.copy())...)
+					r.forkDepth--
+					delete(r.force, fr.call)
+				}
+				return out
+			}
+		}
 		if r.record && r.sp.Visit != nil {
 			r.sp.Visit(r.pkg, b.Nodes[i], st)
 		}
@@ -791,6 +879,41 @@ func (r *runner) block(b *cfg.Block, st *State) []*State {
 		}
 		r.node(b, b.Nodes[i], st)
 	}
+	return []*State{st}
+}
+
+func hasCall(n ast.Node) bool {
+	found := false
+	ast.Inspect(n, func(m ast.Node) bool {
+		switch m.(type) {
+		case *ast.FuncLit:
+			return false
+		case *ast.CallExpr:
+			found = true
+		}
+		return !found
+	})
+	return found
+}
+
+// probe runs node n on a copy of st without recording anything and reports whether a callee analysed in context
+// left through exits that differ on a Split tag.
+func (r *runner) probe(b *cfg.Block, n ast.Node, st *State) *forkReq {
+	savedRec, savedVisit := r.record, r.sp.Visit
+	r.record, r.sp.Visit, r.probing, r.forkReq = false, nil, true, nil
+	tmp := st.copy()
+	if r.sp.Effect != nil {
+		r.sp.Effect(r.pkg, n, tmp)
+	}
+	r.node(b, n, tmp)
+	r.record, r.sp.Visit, r.probing = savedRec, savedVisit, false
+	fr := r.forkReq
+	r.forkReq = nil
+	return fr
+}
+
+// branch: the state(s) on the successor edges of b after its nodes (one per successor, nil = infeasible)
+func (r *runner) branch(b *cfg.Block, cond ast.Expr, st *State) []*State {
 	if cond != nil && r.record && r.sp.Visit != nil {
 		r.sp.Visit(r.pkg, cond, st)
 	}
@@ -878,6 +1001,9 @@ func (r *runner) addTag(st *State, t Tag) {
 }
 
 func (r *runner) originOK(st *State, o *Origin) {
+	if o.ErrIdx >= 0 {
+		r.narrow(o, st, func(ex *Exit) bool { return ex.Class != ExitErr })
+	}
 	for _, t := range o.Tags {
 		if !strings.HasPrefix(t, "-") {
 			r.addTag(st, "ok:"+t)
@@ -905,6 +1031,9 @@ func (r *runner) originOK(st *State, o *Origin) {
 }
 
 func (r *runner) originFail(st *State, o *Origin) {
+	if o.ErrIdx >= 0 {
+		r.narrow(o, st, func(ex *Exit) bool { return ex.Class != ExitOK })
+	}
 	for _, t := range o.Tags {
 		if !strings.HasPrefix(t, "-") {
 			r.addTag(st, "fail:"+t)
@@ -962,15 +1091,19 @@ func (r *runner) refine(cond ast.Expr, branch bool, st *State) {
 				}
 			}
 		case token.LAND:
-			// go/cfg decomposes && and || in conditions; reached only for nested value uses
+			// go/cfg keeps a && b and a || b as one condition
 			if branch {
 				r.refine(x.X, true, st)
 				r.refine(x.Y, true, st)
+			} else {
+				r.refineEither(x.X, x.Y, false, st)
 			}
 		case token.LOR:
 			if !branch {
 				r.refine(x.X, false, st)
 				r.refine(x.Y, false, st)
+			} else {
+				r.refineEither(x.X, x.Y, true, st)
 			}
 		}
 	case *ast.Ident:
@@ -983,6 +1116,19 @@ func (r *runner) refine(cond ast.Expr, branch bool, st *State) {
 			if or := st.Def[o]; or != nil {
 				r.boolEvent(or, branch, st)
 				r.boolSum(or, st.DefIdx[o], branch, st)
+			}
+			if ce := st.Cond[o]; ce != nil {
+				r.refine(ce, branch, st)
+			}
+		}
+	case *ast.SelectorExpr:
+		if e, zero, ok := r.fieldValue(x, st); ok {
+			if zero {
+				if branch {
+					st.Must[deadTag] = true
+				}
+			} else {
+				r.refine(e, branch, st)
 			}
 		}
 	case *ast.CallExpr:
@@ -1004,6 +1150,30 @@ func (r *runner) refine(cond ast.Expr, branch bool, st *State) {
 	}
 }
 
+// refineEither: `a || b` is true (v) or `a && b` is false (!v): either a has the value v, or a has the other value
+// and b has v. The state is the join of the two feasible alternatives (what holds on both; what may hold on one).
+func (r *runner) refineEither(a, b ast.Expr, v bool, st *State) {
+	s1 := st.copy()
+	r.refine(a, v, s1)
+	s2 := st.copy()
+	r.refine(a, !v, s2)
+	r.refine(b, v, s2)
+	d1 := s1.Must[deadTag] || r.contradictory(s1)
+	d2 := s2.Must[deadTag] || r.contradictory(s2)
+	switch {
+	case d1 && d2:
+		st.Must[deadTag] = true
+		return
+	case d1:
+		*st = *s2
+	case d2:
+		*st = *s1
+	default:
+		s1.join(s2)
+		*st = *s1
+	}
+}
+
 func (r *runner) boolEvent(o *Origin, v bool, st *State) {
 	p := "false:"
 	if v {
@@ -1016,12 +1186,69 @@ func (r *runner) boolEvent(o *Origin, v bool, st *State) {
 	}
 }
 
+// narrow keeps, of the exits of the callee analysed in context at o, those for which keep holds (among those still
+// feasible in st), and establishes what all of the remaining ones have established.
+func (r *runner) narrow(o *Origin, st *State, keep func(*Exit) bool) {
+	if !o.Inlined || len(o.Exits) == 0 || len(o.Exits) > 64 {
+		return
+	}
+	f, ok := st.Feas[o]
+	if !ok || f.n != len(o.Exits) {
+		f = feas{mask: ^uint64(0) >> (64 - uint(len(o.Exits))), n: len(o.Exits)}
+	}
+	for i, ex := range o.Exits {
+		if f.mask&(1<<uint(i)) != 0 && !keep(ex) {
+			f.mask &^= 1 << uint(i)
+		}
+	}
+	st.Feas[o] = f
+	if f.mask == 0 {
+		// no way out of the callee agrees with what this path has learnt about its results
+		st.Must[deadTag] = true
+		return
+	}
+	for t := range r.feasMust(o, f, nil) {
+		st.Must[t] = true
+		st.May[t] = true
+	}
+}
+
+// feasMust: the tags every feasible exit (that also satisfies also, if given) has established; nil if there is none
+func (r *runner) feasMust(o *Origin, f feas, also func(*Exit) bool) map[Tag]bool {
+	var inter map[Tag]bool
+	for i, ex := range o.Exits {
+		if f.mask&(1<<uint(i)) == 0 || (also != nil && !also(ex)) {
+			continue
+		}
+		if inter == nil {
+			inter = map[Tag]bool{}
+			for t := range ex.St.Must {
+				if t != deadTag {
+					inter[t] = true
+				}
+			}
+			continue
+		}
+		for t := range inter {
+			if !ex.St.Must[t] {
+				delete(inter, t)
+			}
+		}
+	}
+	return inter
+}
+
 // boolSum: the condition tests the bool result of a call whose body was analysed: what every exit returning
 // that value has established holds from here on.
 func (r *runner) boolSum(o *Origin, idx int, v bool, st *State) {
 	if o.Sum == nil || o.Sum.BoolIdx != idx {
 		return
 	}
+	want := isFalse
+	if v {
+		want = isTrue
+	}
+	r.narrow(o, st, func(ex *Exit) bool { return ex.BoolRes == 0 || ex.BoolRes == want })
 	m := o.Sum.MustFalse
 	if v {
 		m = o.Sum.MustTrue
@@ -1183,7 +1410,29 @@ func (r *runner) deferOrGo(b *cfg.Block, c *ast.CallExpr, st *State, prefix stri
 		}
 		r.addTag(st, prefix+t)
 	}
-	if callee != nil && r.depth > 0 && !r.foreignIface(callee) {
+	if fi := r.inlineTarget(callee, tags); fi != nil {
+		// `go helper(..)` / `defer helper(..)` with a function of the package: its body is read like the body of a
+		// literal written in place (what it does is recorded under the prefix)
+		if r.sp.inlining == nil {
+			r.sp.inlining = map[*types.Func]bool{}
+		}
+		r.sp.inlining[callee] = true
+		r.sp.nextInline = r.inline - 1
+		r.sp.nextFn = fi
+		saved := r.sp.Visit
+		r.sp.Visit = nil
+		sub := r.sp.run(fi.Pkg, fi.Decl.Type, fi.Decl.Body, r.sp.W.CFG(fi), r.depth, nil)
+		r.sp.Visit = saved
+		delete(r.sp.inlining, callee)
+		if sub.Sum != nil {
+			for t := range sub.Sum.MustAll {
+				r.addTag(st, prefix+t)
+			}
+			for t := range sub.Sum.May {
+				st.May[prefix+t] = true
+			}
+		}
+	} else if callee != nil && r.depth > 0 && !r.foreignIface(callee) {
 		_, callees, _ := r.sp.W.Resolve(r.info, c)
 		if s := r.sp.calleeSummary(callees, r.depth-1); s != nil {
 			for t := range s.MustAll {
@@ -1422,6 +1671,9 @@ func (r *runner) call(b *cfg.Block, c *ast.CallExpr, st *State, valueUsed bool) 
 					if cst := core.ConstObj(r.info, a); cst != nil {
 						seed.Eq[params[i]] = cst
 					}
+					if r.pureTest(a) {
+						seed.Cond[params[i]] = ast.Unparen(a)
+					}
 					// a function or method value handed to a func-typed parameter
 					if _, isFn := params[i].Type().Underlying().(*types.Signature); isFn {
 						switch fx := ast.Unparen(a).(type) {
@@ -1444,6 +1696,15 @@ func (r *runner) call(b *cfg.Block, c *ast.CallExpr, st *State, valueUsed bool) 
 							}
 							if v, ok := st.Eq[src]; ok {
 								seed.Eq[params[i]] = v
+							}
+							if v, ok := st.Cond[src]; ok {
+								seed.Cond[params[i]] = v
+							}
+							// the parameter holds the result of the call the caller's variable holds: a test of
+							// it inside the callee is a test of that call's outcome
+							if or, ok := st.Def[src]; ok {
+								seed.Def[params[i]] = or
+								seed.DefIdx[params[i]] = st.DefIdx[src]
 							}
 							if cst, ok := src.(*types.Const); ok && cst.Val().Kind() == constant.Bool {
 								if constant.BoolVal(cst.Val()) {
@@ -1523,9 +1784,44 @@ func (r *runner) call(b *cfg.Block, c *ast.CallExpr, st *State, valueUsed bool) 
 			r.res.Calls = append(r.res.Calls, sub.Calls...)
 			r.res.Assigns = append(r.res.Assigns, sub.Assigns...)
 		}
+		if len(sub.Exits) > 0 && sub.Sum != nil && r.sp.Fork && len(r.sp.Split) > 0 && len(sub.Exits) <= 64 {
+			if g, forced := r.force[c]; forced {
+				or.Sum = sub.Sum
+				or.Inlined = true
+				or.Exits = sub.Exits
+				r.leaveThrough(st, or, g)
+				return or
+			}
+			if r.probing && r.forkReq == nil {
+				// do the callee's exits differ on a tag the rule partitions on?
+				var keys []string
+				groups := map[string][]int{}
+				for i, ex := range sub.Exits {
+					var k []string
+					for _, t := range r.sp.Split {
+						if ex.St.Must[t] {
+							k = append(k, t)
+						}
+					}
+					ks := strings.Join(k, "|")
+					if _, seen := groups[ks]; !seen {
+						keys = append(keys, ks)
+					}
+					groups[ks] = append(groups[ks], i)
+				}
+				if len(keys) > 1 {
+					fr := &forkReq{call: c}
+					for _, k := range keys {
+						fr.groups = append(fr.groups, groups[k])
+					}
+					r.forkReq = fr
+				}
+			}
+		}
 		if len(sub.Exits) > 0 && sub.Sum != nil {
 			or.Sum = sub.Sum
 			or.Inlined = true
+			or.Exits = sub.Exits
 			// what survives every exit of the callee (tags it killed on some path are gone)
 			for t := range st.Must {
 				if !sub.Sum.MustAll[t] {
@@ -1568,6 +1864,167 @@ func (r *runner) call(b *cfg.Block, c *ast.CallExpr, st *State, valueUsed bool) 
 	return or
 }
 
+// leaveThrough: the caller continues from the exits g of the callee analysed in context at o (and only those)
+func (r *runner) leaveThrough(st *State, o *Origin, g []int) {
+	var must, may map[Tag]bool
+	var mask uint64
+	for _, i := range g {
+		ex := o.Exits[i]
+		mask |= 1 << uint(i)
+		if must == nil {
+			must, may = cp(ex.St.Must), cp(ex.St.May)
+			continue
+		}
+		for t := range must {
+			if !ex.St.Must[t] {
+				delete(must, t)
+			}
+		}
+		for t := range ex.St.May {
+			may[t] = true
+		}
+	}
+	for t := range st.Must {
+		if !must[t] {
+			delete(st.Must, t)
+		}
+	}
+	for t := range must {
+		st.Must[t] = true
+		st.May[t] = true
+	}
+	for t := range st.May {
+		if !may[t] {
+			delete(st.May, t)
+		}
+	}
+	for t := range may {
+		st.May[t] = true
+	}
+	st.Feas[o] = feas{mask: mask, n: len(o.Exits)}
+	if len(g) == 1 {
+		// a single way out: what is known about the callee's variables there stays known (a result built from them,
+		// e.g. a struct of flags, can be read in their terms)
+		ex := o.Exits[g[0]].St
+		for k, v := range ex.Nil {
+			if _, has := st.Nil[k]; !has {
+				st.Nil[k] = v
+			}
+		}
+		for k, v := range ex.Bool {
+			if _, has := st.Bool[k]; !has {
+				st.Bool[k] = v
+			}
+		}
+		for k, v := range ex.Eq {
+			if _, has := st.Eq[k]; !has {
+				st.Eq[k] = v
+			}
+		}
+		for k, v := range ex.Def {
+			if _, has := st.Def[k]; !has {
+				st.Def[k] = v
+				st.DefIdx[k] = ex.DefIdx[k]
+			}
+		}
+		for k, v := range ex.Cond {
+			if _, has := st.Cond[k]; !has {
+				st.Cond[k] = v
+			}
+		}
+	}
+}
+
+// fieldValue: x.f where x holds a result of a callee analysed in context and every exit still feasible returns a
+// keyed struct literal there: the expression the field was given (zero: the literal leaves it out), in the callee's
+// terms. Not known when the field or the variable's address is written anywhere in the analysed body.
+func (r *runner) fieldValue(x *ast.SelectorExpr, st *State) (e ast.Expr, zero, ok bool) {
+	id, isId := ast.Unparen(x.X).(*ast.Ident)
+	if !isId {
+		return nil, false, false
+	}
+	o := r.info.Uses[id]
+	fld, isVar := r.info.Uses[x.Sel].(*types.Var)
+	if o == nil || !isVar || !fld.IsField() {
+		return nil, false, false
+	}
+	or := st.Def[o]
+	if or == nil || !or.Inlined || len(or.Exits) == 0 || len(or.Exits) > 64 {
+		return nil, false, false
+	}
+	idx := st.DefIdx[o]
+	f, has := st.Feas[or]
+	if !has || f.n != len(or.Exits) {
+		f = feas{mask: ^uint64(0) >> (64 - uint(len(or.Exits))), n: len(or.Exits)}
+	}
+	written := false
+	ast.Inspect(r.body, func(n ast.Node) bool {
+		switch y := n.(type) {
+		case *ast.AssignStmt:
+			for _, l := range y.Lhs {
+				if sel, isSel := ast.Unparen(l).(*ast.SelectorExpr); isSel {
+					if lid, isLid := ast.Unparen(sel.X).(*ast.Ident); isLid && r.info.Uses[lid] == o {
+						written = true
+					}
+				}
+			}
+		case *ast.UnaryExpr:
+			if y.Op == token.AND {
+				if lid, isLid := ast.Unparen(y.X).(*ast.Ident); isLid && r.info.Uses[lid] == o {
+					written = true
+				}
+			}
+		}
+		return !written
+	})
+	if written {
+		return nil, false, false
+	}
+	n := 0
+	for i, ex := range or.Exits {
+		if f.mask&(1<<uint(i)) == 0 {
+			continue
+		}
+		if idx >= len(ex.Results) {
+			return nil, false, false
+		}
+		res := ast.Unparen(ex.Results[idx])
+		if u, isU := res.(*ast.UnaryExpr); isU && u.Op == token.AND {
+			res = ast.Unparen(u.X)
+		}
+		lit, isLit := res.(*ast.CompositeLit)
+		if !isLit {
+			return nil, false, false
+		}
+		var val ast.Expr
+		for _, el := range lit.Elts {
+			kv, isKV := el.(*ast.KeyValueExpr)
+			if !isKV {
+				return nil, false, false // positional
+			}
+			if kid, isKid := kv.Key.(*ast.Ident); isKid && kid.Name == fld.Name() {
+				val = kv.Value
+			}
+		}
+		n++
+		switch {
+		case n == 1:
+			e, zero = val, val == nil
+		case val == nil && zero:
+		default:
+			// several exits: they must agree on a constant
+			a, b := core.ConstVal(r.info, e), core.ConstVal(r.info, val)
+			if e == nil || val == nil || a == nil || b == nil || !constant.Compare(a, token.EQL, b) {
+				return nil, false, false
+			}
+		}
+	}
+	if n == 0 {
+		return nil, false, false
+	}
+	return e, zero, true
+}
+
 // inlineTarget: a statically resolved callee declared in the analysed function's own package, with a body, not
 // already being inlined (recursion), and not itself an event of the rule (a classified call is a leaf: the rule
 // has said what it means).
@@ -1605,6 +2062,56 @@ func (r *runner) killVar(o types.Object, st *State, pos token.Pos) {
 	delete(st.Def, o)
 	delete(st.DefIdx, o)
 	delete(st.FuncVal, o)
+	delete(st.Cond, o)
+	for k, e := range st.Cond {
+		if r.mentionsObj(e, o) {
+			delete(st.Cond, k)
+		}
+	}
+}
+
+func (r *runner) mentionsObj(e ast.Expr, o types.Object) bool {
+	found := false
+	ast.Inspect(e, func(n ast.Node) bool {
+		if id, ok := n.(*ast.Ident); ok && r.info.Uses[id] == o {
+			found = true
+		}
+		return !found
+	})
+	return found
+}
+
+// pureTest: a comparison / logical combination over plain variables, constants, nil and literals only (no call,
+// no field, no index: nothing that can change without an assignment to one of the named variables)
+func (r *runner) pureTest(e ast.Expr) bool {
+	switch x := ast.Unparen(e).(type) {
+	case *ast.BinaryExpr:
+		switch x.Op {
+		case token.EQL, token.NEQ, token.LAND, token.LOR, token.LSS, token.GTR, token.LEQ, token.GEQ:
+			return r.pureOperand(x.X) && r.pureOperand(x.Y)
+		}
+	case *ast.UnaryExpr:
+		return x.Op == token.NOT && r.pureOperand(x.X)
+	}
+	return false
+}
+
+func (r *runner) pureOperand(e ast.Expr) bool {
+	switch x := ast.Unparen(e).(type) {
+	case *ast.Ident:
+		switch o := r.info.Uses[x].(type) {
+		case *types.Var:
+			return !o.IsField() && o.Parent() != nil && o.Parent() != o.Pkg().Scope()
+		case *types.Const, *types.Nil:
+			return true
+		}
+		return false
+	case *ast.BasicLit:
+		return true
+	case *ast.SelectorExpr:
+		return core.ConstObj(r.info, x) != nil
+	}
+	return r.pureTest(e)
 }
 
 // bind records `o = e`.
@@ -1663,6 +2170,13 @@ func (r *runner) bind(o types.Object, e ast.Expr, st *State) {
 	case *ast.UnaryExpr:
 		if x.Op == token.AND {
 			st.Nil[o] = isNonNil
+		}
+		if r.pureTest(x) && !r.mentionsObj(x, o) {
+			st.Cond[o] = x
+		}
+	case *ast.BinaryExpr:
+		if r.pureTest(x) && !r.mentionsObj(x, o) {
+			st.Cond[o] = x
 		}
 	case *ast.CompositeLit, *ast.FuncLit:
 		st.Nil[o] = isNonNil
@@ -1881,6 +2395,31 @@ func (r *runner) evalExprLHS(b *cfg.Block, e ast.Expr, st *State) {
 }
 
 func (r *runner) exit(ret *ast.ReturnStmt, pos token.Pos, st *State) {
+	// `return helper(..)` with the helper analysed in this context: the function leaves through the helper's exits
+	// (each with its own state, results and class), so a rule that reads "which status on which path" sees the same
+	// exits whether the decision is written here or in an extracted function
+	if ret != nil && len(ret.Results) == 1 && r.record {
+		if c, ok := ast.Unparen(ret.Results[0]).(*ast.CallExpr); ok {
+			if or := r.origins[c]; or != nil && or.Inlined && len(or.Exits) > 0 {
+				same := true
+				for _, sub := range or.Exits {
+					if len(sub.Results) != r.nres {
+						same = false
+					}
+				}
+				if same {
+					for _, sub := range or.Exits {
+						ex := &Exit{Stmt: ret, Pos: sub.Pos, St: sub.St.copy(), Results: sub.Results, Class: sub.Class, BoolRes: sub.BoolRes, ErrOrigin: sub.ErrOrigin, OkImplies: sub.OkImplies, FailImpl: sub.FailImpl, Via: or}
+						if r.errIdx < 0 {
+							ex.Class = ExitNoErr
+						}
+						r.res.Exits = append(r.res.Exits, ex)
+					}
+					return
+				}
+			}
+		}
+	}
 	ex := &Exit{Stmt: ret, Pos: pos, St: st.copy(), OkImplies: map[Tag]bool{}, FailImpl: map[Tag]bool{}}
 	if ret != nil && len(ret.Results) > 0 {
 		ex.Results = ret.Results
@@ -1943,6 +2482,33 @@ func (r *runner) exit(ret *ast.ReturnStmt, pos token.Pos, st *State) {
 		}
 	}
 	if or := ex.ErrOrigin; or != nil && ex.Class == ExitEither {
+		if f, ok := st.Feas[or]; ok && f.n == len(or.Exits) && f.mask != 0 && or.Inlined {
+			// the returned error is that of a callee analysed in context: only its exits still consistent with what
+			// was learnt about its other results count
+			anyOK, anyErr := false, false
+			for i, sub := range or.Exits {
+				if f.mask&(1<<uint(i)) != 0 {
+					if sub.Class != ExitErr {
+						anyOK = true
+					}
+					if sub.Class != ExitOK {
+						anyErr = true
+					}
+				}
+			}
+			switch {
+			case anyOK && !anyErr:
+				ex.Class = ExitOK
+			case anyErr && !anyOK:
+				ex.Class = ExitErr
+			}
+			for t := range r.feasMust(or, f, func(sub *Exit) bool { return sub.Class != ExitErr }) {
+				ex.OkImplies[t] = true
+			}
+			for t := range r.feasMust(or, f, func(sub *Exit) bool { return sub.Class != ExitOK }) {
+				ex.FailImpl[t] = true
+			}
+		}
 		for _, t := range or.Tags {
 			if !strings.HasPrefix(t, "-") {
 				ex.OkImplies["ok:"+t] = true
@@ -2176,6 +2742,9 @@ func (r *runner) condValue(cond ast.Expr, st *State) (known, val bool) {
 			return true, v
 		}
 	}
+	if v := core.ConstVal(r.info, cond); v != nil && v.Kind() == constant.Bool {
+		return true, constant.BoolVal(v)
+	}
 	switch x := cond.(type) {
 	case *ast.UnaryExpr:
 		if x.Op == token.NOT {
@@ -2190,6 +2759,16 @@ func (r *runner) condValue(cond ast.Expr, st *State) (known, val bool) {
 			case isFalse:
 				return true, false
 			}
+			if ce := st.Cond[o]; ce != nil {
+				return r.condValue(ce, st)
+			}
+		}
+	case *ast.SelectorExpr:
+		if e, zero, ok := r.fieldValue(x, st); ok {
+			if zero {
+				return true, false
+			}
+			return r.condValue(e, st)
 		}
 	case *ast.BinaryExpr:
 		if x.Op == token.LAND || x.Op == token.LOR {
